@@ -330,7 +330,9 @@ class BindWorld:
         obs["state_after"] = self.state()
         obs["exc_first"] = self.w.loop_exceptions()
         n_exc = len(self.loop.exc)
-        obs["second"] = self.attempt(0.0, HORIZON)
+        # (the fresh attempt may itself have its supplicant start late - e.g. 4.8 s, inside the respondent's 5 s offer wait - so that
+        #  it is still in progress when timers left over from the first attempt fall due)
+        obs["second"] = self.attempt(p.get("retry_supp_delay", 0.0), HORIZON)
         self.loop.quiesce(self.loop.time() + 12.0)
         obs["state_final"] = self.state()
         gc.collect()
@@ -462,6 +464,9 @@ def scenarios(quick: bool) -> list[tuple[dict, int]]:
     # the public entry points (code list chosen by the device class / vendor scheme)
     for flow in ("RND-CTL", "RND-CTL-00", "CO2-FAN", "REM-FAN", "DHW-CTL", "REM-FAN-orcon"):
         sc.append(({"flow": flow, "api": True, "dev": allk}, 2 if quick else 3))
+    for flow in ("RND-CTL", "CO2-FAN", "DHW-CTL"):
+        for d in (4.8, 4.4):
+            sc.append(({"flow": flow, "dev": ("lose", "cancel"), "retry_supp_delay": d}, 2 if quick else 3))
     # who starts first, and by how much (around the 5 s offer wait)
     for flow in ("DHW-CTL", "CO2-FAN"):
         for d in (-1.0, -4.9, -5.2, 1.0, 4.9, 5.2, 12.0):
